@@ -17,10 +17,12 @@ import (
 	"crypto/x509"
 	"crypto/x509/pkix"
 	"encoding/hex"
+	"encoding/pem"
 	"errors"
 	"fmt"
 	"math/big"
 	"net"
+	"os"
 	"testing"
 	"time"
 
@@ -95,6 +97,18 @@ func init() {
 	nonca := c13Make("nonca-inter", root, false, "", false) // an "intermediate" that is not a CA
 	c13Make("leaf-under-nonca", nonca, false, c13MX, false)
 	c13Make("unrelated-ca", nil, true, "", false)
+	// The harness root is also made a *system-trusted* root of this process (the Go runtime reads
+	// SSL_CERT_FILE when it first loads the system pool): the chains that validly lead to it then pass
+	// ordinary PKIX validation, which must make no difference to any DANE answer - in particular a usable
+	// DANE-TA record that matches nothing is still a refusal.
+	if f, err := os.CreateTemp("", "c13-system-roots-*.pem"); err == nil {
+		pem.Encode(f, &pem.Block{Type: "CERTIFICATE", Bytes: root.cert.Raw})
+		f.Close()
+		os.Setenv("SSL_CERT_FILE", f.Name())
+		if d, err := os.MkdirTemp("", "c13-empty-certdir"); err == nil {
+			os.Setenv("SSL_CERT_DIR", d)
+		}
+	}
 }
 
 // chains: the certificates the server presents, leaf first
